@@ -10,6 +10,9 @@ TRUST = ("Go toolchain; goxmldsig (used harness-side to sign messages and, in or
 
 # id -> (engine, technique, text, design_ref, level_note)
 CLAIMED = {
+ "C01": ("bfs", "explicit-state search over documents (mutation-operator transitions from genuinely signed messages, depth-bounded, deduplicated) with a ground-truth + reference-verifier oracle, plus exhaustive trust-rotation sequences",
+         "Every document reachable from 6 genuinely signed initial messages by at most 2 (thorough: 3, time-capped) of ~120 attacker mutation operators is presented to ParseXMLResponse and ParseXMLArtifactResponse under 2-4 trust configurations; whenever an assertion is returned its identity-bearing content must be content the harness signed with a key trusted in that configuration and must be the content of an element a naive reference verifier finds validly signed in the presented document. All (configure, present) sequences up to length 2-3 on one SP object check that trust follows the current configuration.",
+         "DESIGN.md §3 C01", "unforgeable signatures; goxmldsig verification (also used by the reference verifier); operator alphabet and depth bound"),
  "C04": ("lattice", "bounded-exhaustive enumeration (full product) against a three-valued reference model, on the real API",
          "Every point of the full cross product of outstanding-ID sets x InResponseTo values (Response, 1-2 confirmations) x AllowIDPInitiated x validator x entry point x signing layout, "
          "and the artifact path end-to-end, is built as a harness-signed message, pushed through ParseXMLResponse/ParseResponse and compared with a reference model; nothing is sampled.",
